@@ -81,6 +81,37 @@ def part_a(item):
     return res
 
 
+def part_a_mixed(item):
+    groups, chans = item
+    r = part_a((0, len(groups), groups)) if False else None
+    res = {'counters': {'cases': 0}, 'violations': [], 'paths': []}
+    sub = part_a_pairs(groups, chans)
+    return sub
+
+
+def part_a_pairs(groups, chans):
+    from nptdms.common import ObjectPath
+    res = {'counters': {'cases': 0}, 'violations': [], 'paths': []}
+    for g in groups:
+        for c in chans:
+            res['counters']['cases'] += 1
+            names = (g, c)
+            r = H.guarded(lambda: ObjectPath(*names))
+            if r[0] != 'ok':
+                res['violations'].append({'case': {'part': 'a', 'names': list(names)}, 'expected': refpath(*names), 'observed': repr(r),
+                                          'signature': {'kind': 'construct-raised', 'ncomp': 2}})
+                continue
+            p = str(r[1])
+            rb = H.guarded(lambda: ObjectPath.from_string(p))
+            got = [x for x in (rb[1].group, rb[1].channel) if x is not None] if rb[0] == 'ok' else None
+            if p != refpath(*names) or got != list(names) or H._components(p) != list(names):
+                if len(res['violations']) < 10:
+                    res['violations'].append({'case': {'part': 'a', 'names': list(names)}, 'expected': refpath(*names), 'observed': repr((p, got)),
+                                              'signature': {'kind': 'roundtrip', 'ncomp': 2}})
+            res['paths'].append((p, tuple(names)))
+    return res
+
+
 def sentinel(g, c):
     return (sum((i + 1) * b for i, b in enumerate((g + '\x01' + c).encode('utf-8'))) * 2654435761) % (2 ** 31)
 
@@ -192,7 +223,7 @@ def part_c(item):
 def run(ctx):
     from ..run import merge
     from nptdms.common import ObjectPath
-    s4 = list(dict.fromkeys(strings(4) + EXTRA))
+    s4 = list(dict.fromkeys(strings(5 if ctx.tier == 'thorough' else 4) + EXTRA))
     s3 = strings(3)
     viol = []
     # (a) single component names in the parent (cheap), pairs in workers
@@ -219,8 +250,20 @@ def run(ctx):
         viol.append({'case': {'part': 'a', 'path': p, 'names': sorted(map(list, v))}, 'expected': 'distinct names give distinct paths',
                      'observed': '%d names map to %s' % (len(v), p), 'signature': {'kind': 'alias'}})
     # (b) writer -> reader per pair
-    pair_names = s3 if ctx.tier == 'thorough' else s3
-    rb = merge(ctx.map(part_b, [(i, min(i + 3, len(pair_names)), pair_names) for i in range(0, len(pair_names), 3)]))
+    rb = merge(ctx.map(part_b, [(i, min(i + 3, len(s3)), s3) for i in range(0, len(s3), 3)]))
+    if ctx.tier == 'thorough':
+        # groups of length 4 against channels of length <= 3 (path level and through a write/read cycle)
+        g4 = [x for x in strings(4) if len(x) == 4]
+        ra2 = ctx.map(part_a_mixed, [(g4[i:i + 8], s3) for i in range(0, len(g4), 8)])
+        for r in ra2:
+            n_pairs += r['counters']['cases']
+            viol.extend(r['violations'])
+            for p_, names_ in r['paths']:
+                paths.setdefault(p_, set()).add(names_)
+        collisions = {p_: v for p_, v in paths.items() if len(v) > 1}
+        for p_, v in list(collisions.items())[:5]:
+            viol.append({'case': {'part': 'a', 'path': p_, 'names': sorted(map(list, v))}, 'expected': 'distinct names give distinct paths',
+                         'observed': '%d names map to %s' % (len(v), p_), 'signature': {'kind': 'alias'}})
     # (c) everything in one file
     rc = merge(ctx.map(part_c, [('writer', s4), ('encoder', s4)]))
     viol += rb['violations'] + rc['violations']
@@ -232,7 +275,7 @@ def run(ctx):
            'all_names_file_lookups': rc['counters']['cases'], 'distinct_paths': len(paths), 'collisions': len(collisions),
            'samples': [{'names': ["'", "/'"], 'path': refpath("'", "/'")}, {'names': ['', ''], 'path': refpath('', '')},
                        {'names': ['日本'], 'path': refpath('日本')}],
-           'exhaustive': True, 'vacuity_failures': [] if n_pairs == len(s3) ** 2 else ['pair enumeration incomplete']}
+           'exhaustive': True, 'vacuity_failures': [] if n_pairs >= len(s3) ** 2 else ['pair enumeration incomplete']}
     return cov, viol
 
 
